@@ -47,12 +47,18 @@ class FileSystemArtifactStore(SerializedArtifactStore):
 
         return path
 
+    @staticmethod
+    def _get_file_stem(node_id: NodeId) -> str:
+        # The node id is a key, not a path: a separator inside it must not lead into a subdirectory or, with '..',
+        # into the directory of another pipeline. The escaping keeps different ids different.
+        return str(node_id).replace('%', '%25').replace('/', '%2F').replace('\\', '%5C')
+
     def _get_glob(self, node_id: NodeId) -> t.List[Path]:
         # The node id is a literal key: it must not be treated as a glob pattern,
         # and "x" must not match the artifact of "x.y"
         directory = self._ensure_dir()
         return [
-            path for path in (directory / f'{node_id}.{fmt.value}' for fmt in DataFormat)
+            path for path in (directory / f'{self._get_file_stem(node_id)}.{fmt.value}' for fmt in DataFormat)
             if path.exists()
         ]
 
@@ -63,7 +69,7 @@ class FileSystemArtifactStore(SerializedArtifactStore):
 
         mode = 'wb' if fmt == DataFormat.PICKLE else 'w'
 
-        path = Path(self._ensure_dir() / f'{node_id}.{fmt.value}')
+        path = Path(self._ensure_dir() / f'{self._get_file_stem(node_id)}.{fmt.value}')
 
         try:
             with path.open(mode) as file:  # noqa: ASYNC101
